@@ -5,6 +5,7 @@ import (
 	"encoding/json"
 	"errors"
 	"fmt"
+	"io"
 	"runtime"
 	"sort"
 	"strconv"
@@ -43,6 +44,7 @@ type hscript struct {
 	ErrCode    int  // code of the application error (Outcome 1); also codes the protocol reserves
 	Push       int  // 0 none, 1 Notify, 2 Callback from inside the handler
 	CancelID   string
+	ErrData    bool // the application error carries data
 }
 
 type ctxObs struct {
@@ -287,7 +289,13 @@ func (w *srvWorld) genID(n int) string {
 	if w.cfg.SeqIDs {
 		return strconv.Itoa(n)
 	}
-	switch g.Weighted("idform", []int{6, 3, 1, 1}) {
+	switch g.Weighted("idform", []int{6, 3, 1, 1, 1, 1}) {
+	case 4:
+		// beyond 2^53: not representable as a float64
+		return strconv.FormatInt(9007199254740993+int64(n)*2, 10)
+	case 5:
+		// a string that needs escaping (written the way encoding/json writes it)
+		return fmt.Sprintf(`"é \"q\" \\ %d"`, n)
 	case 1:
 		return fmt.Sprintf(`"s%d"`, n)
 	case 2:
@@ -308,7 +316,9 @@ func (w *srvWorld) genScript() hscript {
 	// 0 result, 1 application error, 2 ctx.Err() if cancelled else result,
 	// 3 a pre-encoded result that is not valid JSON, 4 a pre-encoded result with inner line breaks
 	// 5 a nil result (must be answered "result":null), 6 a result of ~100 kB
-	s.Outcome = g.Weighted("outcome", []int{6, 3, 2, 1, 1, 1, 1})
+	// 7 an error that is not a *jrpc2.Error; outcome 1 may carry error data
+	s.Outcome = g.Weighted("outcome", []int{6, 3, 2, 1, 1, 1, 1, 1})
+	s.ErrData = g.Chance("errdata", 0.4)
 	// a handler may return any code, including the ones the protocol uses itself
 	s.ErrCode = []int{0, 0, 0, -32600, -32700, -32602, -32603, -32601}[g.Int("errcode", 8)]
 	return s
@@ -659,7 +669,13 @@ func (w *srvWorld) handle(ctx context.Context, req *jrpc2.Request) (any, error) 
 		if m.Script.ErrCode == 0 {
 			m.Script.ErrCode = 7000 + m.Msg
 		}
-		err = jrpc2.Errorf(jrpc2.Code(m.Script.ErrCode), "app error %s", m.Tag)
+		e := jrpc2.Errorf(jrpc2.Code(m.Script.ErrCode), "app error %s", m.Tag)
+		if m.Script.ErrData {
+			e = e.WithData(map[string]any{"d": m.Tag, "n": []int{1, 2}})
+		}
+		err = e
+	case 7:
+		err = fmt.Errorf("plain failure %s: %w", m.Tag, io.ErrUnexpectedEOF)
 	case 2:
 		if e := ctx.Err(); e != nil {
 			err = e
@@ -1383,6 +1399,18 @@ func (w *srvWorld) checkResp(m *member, o respObj) string {
 				return fmt.Sprintf("%s: handler returned error %q but response is a result %s", m.Tag, m.HErr, o.Result)
 			}
 			if m.Script.Outcome == 1 && (o.Code != m.Script.ErrCode || !strings.Contains(o.Message, m.Tag)) {
+				return fmt.Sprintf("%s: error response %d %q does not carry the handler's error %q", m.Tag, o.Code, o.Message, m.HErr)
+			}
+			if m.Script.Outcome == 1 {
+				want := ""
+				if m.Script.ErrData {
+					want = fmt.Sprintf(`{"d":%q,"n":[1,2]}`, m.Tag)
+				}
+				if compactJSON(o.Data) != want {
+					return fmt.Sprintf("%s: error response carries data %q, the handler's error carried %q", m.Tag, o.Data, want)
+				}
+			}
+			if m.Script.Outcome == 7 && !strings.Contains(o.Message, m.Tag) {
 				return fmt.Sprintf("%s: error response %d %q does not carry the handler's error %q", m.Tag, o.Code, o.Message, m.HErr)
 			}
 			return ""
